@@ -5,7 +5,7 @@ import z3
 
 from .values import *    # noqa
 from .interp import Outcome, Outs, CellState, PanicNow, get_mpath, set_mpath, Frame
-from .mirparse import Unsupported
+from .mirparse import Unsupported, strip_generics
 
 
 def ret(v, guard=True):
@@ -644,6 +644,18 @@ def _display(v):
     return None
 
 
+def _display_sym(v):
+    if isinstance(v, SRef):
+        return _display_sym(v.val)
+    if isinstance(v, (RcV, BoxV)):
+        return _display_sym(v.inner)
+    if isinstance(v, Str) and not isinstance(v.s, str):
+        return v.s
+    if isinstance(v, Adt) and v.ty == 'NamedSymbol' and len(v.alts) == 1:
+        return _display_sym(v.alts[0][1][0])
+    return None
+
+
 def m_format(I, fr, a, ck):
     """alloc::fmt::format: rendered exactly when the template (length-prefixed literals, 0xC0 = next argument) and all
     arguments are concrete and displayable; otherwise an opaque placeholder string"""
@@ -664,6 +676,8 @@ def m_format(I, fr, a, ck):
                         ok = False
                         break
                     d = _display(vals[k])
+                    if d is None and I.cfg.get('format_symbolic'):
+                        d = _display_sym(vals[k])
                     if d is None:
                         ok = False
                         break
@@ -676,8 +690,13 @@ def m_format(I, fr, a, ck):
                 else:
                     ok = False
                     break
-            if ok:
+            if ok and all(isinstance(x, str) for x in out):
                 return Str(''.join(out))
+            if ok:
+                # some argument is a symbolic string: the rendering is the concatenation term
+                parts = [x for x in out if not (isinstance(x, str) and x == '')]
+                terms = [z3.StringVal(x) if isinstance(x, str) else x for x in parts]
+                return Str(terms[0] if len(terms) == 1 else z3.Concat(*terms))
         elif isinstance(tmpl, str):
             return Str(tmpl)
     return Str(I.cfg.get('format_string', '<formatted>'))
@@ -2462,6 +2481,25 @@ def m_entry_or_insert(I, fr, a, ck):
     raise Unsupported('HashMap entry API is not modelled')
 
 
+def m_rc_default(I, fr, a, ck):
+    """<Rc<T> as Default>::default = Rc::new(T::default()) with the crate's own Default impl of T"""
+    import re as _re
+    m = _re.match(r'^<(?:std::rc::|alloc::rc::)?Rc<(.*)> as (?:std::default::|core::default::)?Default>::default', ck.raw or '')
+    if not m:
+        raise Unsupported('Rc::default of ' + str(ck.raw))
+    inner = strip_generics(m.group(1)).split('::')[-1].strip()
+    it = I.by_key.get((inner, 'Default', 'default'))
+    if it is None:
+        raise Unsupported('Default for ' + inner)
+    outs = []
+    for o in I.call_item(it, [], fr.mem):
+        if o.kind == 'ret':
+            outs.append(Outcome('ret', o.guard, m_rc_new(I, fr, [o.value], ck), o.mem))
+        else:
+            outs.append(o)
+    return Outs(outs)
+
+
 def m_binary_search(I, fr, a, ck):
     """core's slice::binary_search_by, step for step (the list need not be sorted: the answer is whatever the
     algorithm computes): size halves, base moves to mid unless elem[mid] > target."""
@@ -2504,6 +2542,7 @@ def m_binary_search(I, fr, a, ck):
 def register_batch3(M):
     A = M.add
     A('slice', None, 'binary_search', m_binary_search)
+    A('Rc', 'Default', 'default', m_rc_default)
     A('mem', None, 'swap', m_mem_swap)
     A('mem', None, 'replace', m_mem_replace)
     A('mem', None, 'take', m_mem_take)
